@@ -91,3 +91,7 @@ C('C30', 'fuzzing with an exception-class oracle (Python parser) and ASan/UBSan 
 C('C07', 'differential oracle (in-line pycparser-based parser vs C parser of an emitted module with the same declarations); disagreements classified by syntactic repairs re-tested on the real parsers and by gcc -fsyntax-only as independent well-formedness oracle',
   'Exploration: per random declaration context ~700 grammar-generated type strings (specifier permutations, qualifiers anywhere, number bases, named constants, function pointers with names/varargs/calling conventions, redundant grouping) and token-level near-miss mutants; both reject or both accept with the same meaning (object identity for non-aggregates).',
   'Undeclared tags are not generated; exception classes are C30\'s business. 17 recorded finding classes: the two parsers accept different supersets of the common grammar; a disagreement on a well-formed generated string that no recorded syntactic class explains is still a violation.')
+
+C('C26', 'event log (one lock, logical clock) + offline checker over scenarios of both implementations under yield injection (sys.monitoring LINE events in FFI.init_once, yielding tag __hash__/__eq__, sleeping initializers, 1 us switch interval); TSan build on a sample of the C implementation',
+  'Exploration: scenarios of 2-4 threads x 1-3 tags x 1-3 rounds with scripted succeeding/raising/sleeping initializers on cffi.FFI and _cffi_backend.FFI; checker per tag: no overlapping initializers, at most one normal completion, every normal return carries it, nothing starts after it, own exception propagates and is not cached, every call returns; deadlock decided on logical evidence. Evidence lists distinct interleaving signatures and observed raise-vs-success races.',
+  'All interleavings are not enumerated (no model checking in this family); TSan reports decide only inside ffi_init_once.')
